@@ -62,7 +62,7 @@ func build(kind string) *env {
 		core = zapcore.NewCore(enc(), zapcore.Lock(newSink()), zap.DebugLevel)
 	case "combine":
 		core = zapcore.NewCore(enc(), zap.CombineWriteSyncers(newSink(), newSink()), zap.DebugLevel)
-	case "lockreflect", "lockconsole", "lockfault":
+	case "lockreflect", "lockconsole", "lockfault", "lockconsolens":
 		core = zapcore.NewCore(enc(), zapcore.Lock(newSink()), zap.DebugLevel)
 	case "combine1": // a single destination must be serialised just like several
 		core = zapcore.NewCore(enc(), zap.CombineWriteSyncers(newSink()), zap.DebugLevel)
@@ -136,6 +136,8 @@ func doOp(e *env, op byte, thr, idx int) {
 		}
 	case 'W':
 		e.logger.With(zap.String("ctx", "c"+strconv.Itoa(thr))).Info(m, zap.Int("n", thr))
+	case 'Z': // an entry without call-site fields (the logger's stored context is used as it is)
+		e.logger.Info(m)
 	case 'R': // child derived with a reflected field, entry with a reflected field
 		e.logger.With(zap.Reflect("req", yv{"r" + strconv.Itoa(thr)})).Info(m, zap.Reflect("v", yv{m}))
 	case 'F':
@@ -169,7 +171,7 @@ func (y ys) String() string { vsched.Yield(); return y.s }
 // encFor: JSON for every family but "lockconsole", whose console encoder has a
 // time column rendered by user code (a Stringer that yields).
 func encFor(kind string) zapcore.Encoder {
-	if kind != "lockconsole" {
+	if kind != "lockconsole" && kind != "lockconsolens" {
 		return zapcore.NewJSONEncoder(encCfg())
 	}
 	cfg := zap.NewDevelopmentEncoderConfig()
@@ -217,6 +219,9 @@ func (failSink) Sync() error { return errors.New("destination down") }
 func withBase(kind string, l *zap.Logger) *zap.Logger {
 	if kind == "lockreflect" {
 		return l.With(zap.Reflect("svc", yv{"base"}))
+	}
+	if kind == "lockconsolens" { // a shared console logger whose context leaves a namespace open
+		return l.With(zap.Namespace("ns"), zap.Int("c", 1))
 	}
 	return l
 }
@@ -352,7 +357,7 @@ func main() {
 	progs := []string{"I", "B", "S", "C", "W", "II", "IB", "BI", "SW", "CW", "WI"}
 	singles := []string{"I", "B", "W", "C"}
 	var items []string
-	for _, kind := range []string{"lock", "combine", "combine1", "open", "open1", "buffered", "tee", "teebuf", "lockreflect", "lockconsole", "lockfault", "teefail", "teefailmid", "combinefail"} {
+	for _, kind := range []string{"lock", "combine", "combine1", "open", "open1", "buffered", "tee", "teebuf", "lockreflect", "lockconsole", "lockfault", "teefail", "teefailmid", "combinefail", "lockconsolens"} {
 		if kind == "lockfault" {
 			for _, pq := range []string{"I;I", "I;B", "I;W", "W;S", "I;I;I", "I;W;C"} {
 				items = append(items, fmt.Sprintf("c04|%s|%d|%s", kind, pre, pq))
@@ -361,6 +366,12 @@ func main() {
 		}
 		if kind == "teefail" || kind == "teefailmid" || kind == "combinefail" {
 			for _, pq := range []string{"I;I", "I;B", "I;W", "W;S", "I;C", "II;I", "I;I;I"} {
+				items = append(items, fmt.Sprintf("c04|%s|%d|%s", kind, pre, pq))
+			}
+			continue
+		}
+		if kind == "lockconsolens" {
+			for _, pq := range []string{"Z;Z", "Z;I", "Z;W", "ZZ;Z", "ZI;Z", "Z;Z;Z", "Z;I;W"} {
 				items = append(items, fmt.Sprintf("c04|%s|%d|%s", kind, pre, pq))
 			}
 			continue
@@ -444,7 +455,7 @@ func main() {
 	run.Assume = []string{
 		"scheduling points at synchronisation operations (locks, pool Get/Put, channel ops) and inside the harness sink; sufficient for data-race-free code (C09)",
 		"2-3 threads, 1-2 log calls each, preemption bound as stated; pool reuse is LIFO with freed buffers poisoned",
-		"sink families: Lock, CombineWriteSyncers (1 and 2 destinations), zap.Open (1 and 2), BufferedWriteSyncer, tee of two cores, tee with a buffered branch, shared loggers with reflected context / console columns rendered by user code / an unencodable field in their history, and destinations that are down: a tee whose first (or middle) branch refuses every write and a combined syncer whose first destination does - the healthy destinations must still receive every entry once, intact and in per-thread order",
+		"sink families: Lock, CombineWriteSyncers (1 and 2 destinations), zap.Open (1 and 2), BufferedWriteSyncer, tee of two cores, tee with a buffered branch, shared loggers with reflected context / console columns rendered by user code / a console context that leaves a namespace open, used by entries without call-site fields / an unencodable field in their history, and destinations that are down: a tee whose first (or middle) branch refuses every write and a combined syncer whose first destination does - the healthy destinations must still receive every entry once, intact and in per-thread order",
 	}
 	run.Finish(map[string]any{
 		"states":                        len(sum.Outcomes),
